@@ -113,7 +113,7 @@ func init() {
 		return Ops{
 			Less: func(i, j int) bool { return slice[i] < slice[j] },
 			HashWithSeed: func(i int, seed uint32) uint32 {
-				return hash32(math.Float32bits(slice[i]), seed)
+				return hash32(float32Key(slice[i]), seed)
 			},
 		}
 	})
@@ -122,7 +122,7 @@ func init() {
 		return Ops{
 			Less: func(i, j int) bool { return slice[i] < slice[j] },
 			HashWithSeed: func(i int, seed uint32) uint32 {
-				return hash64(math.Float64bits(slice[i]), seed)
+				return hash64(float64Key(slice[i]), seed)
 			},
 		}
 	})
@@ -136,6 +136,23 @@ func init() {
 		}
 	})
 
+}
+
+// Float32Key and float64Key return the bits hashed for a float key.
+// Negative zero is mapped to positive zero, so that keys that compare
+// equal also hash equally.
+func float32Key(x float32) uint32 {
+	if x == 0 {
+		return 0
+	}
+	return math.Float32bits(x)
+}
+
+func float64Key(x float64) uint64 {
+	if x == 0 {
+		return 0
+	}
+	return math.Float64bits(x)
 }
 
 // Hash32 is the 32-bit integer hashing function from
